@@ -1,4 +1,4 @@
-"""C15 -- scopes and name tables agree with Python's symbol table (VGC rules R15.1-R15.8)."""
+"""C15 -- scopes and name tables agree with Python's symbol table (VGC rules R15.1-R15.10)."""
 from __future__ import annotations
 
 import ast
@@ -71,6 +71,10 @@ def check_walkers(idx) -> None:
 def check(ctx, res) -> None:
     _check_main(ctx, res)
     _extent_rule(ctx, res)
+    scope_end_rule(ctx, res, "R15.9")
+    from .c14 import line_table_rule
+
+    line_table_rule(ctx, res, "R15.10")
 
 
 def _check_main(ctx, res) -> None:
@@ -374,3 +378,33 @@ def _extent_rule(ctx, res) -> None:
                     "continuation lines of a multi-line last statement are attributed to the enclosing scope (names looked up from there resolve in "
                     "the wrong scope)", function=f.qualname)
     res.floor("R15.8", "start/end containment tests in pyscopes", n, 1)
+
+
+def scope_end_rule(ctx, res, rule: str) -> None:
+    """Shared by C15/C03: a comment or blank line says nothing about where a scope ends (commented-out code in column 0
+    inside a function body).  In the scope-end scan every exit taken because of a line's indentation is guarded by
+    "this line is not empty/comment"."""
+    from ..cfg import CFG
+
+    idx = ctx.idx
+    f = idx.need_func("rope.base.pyscopes._HoldingScopeFinder.find_scope_end")
+    cfg = CFG(f.node)
+    loops = [nd for nd in cfg.nodes if nd.kind == "loop" and isinstance(nd.ast, ast.For)]
+    if not loops:
+        raise AnalysisError("anchor=_HoldingScopeFinder.find_scope_end: scan loop not found")
+    n = 0
+    for lp in loops:
+        inside = {id(y) for s_ in lp.ast.body for y in [s_, *ast.walk(s_)]}
+        for nd in cfg.nodes:
+            if nd.kind == "stmt" and isinstance(nd.ast, (ast.Return, ast.Break)) and id(nd.ast) in inside:
+                gs = cfg.guards(nd.id)
+                if not any(isinstance(t, ast.Compare) and any(isinstance(c, ast.Call) and "indent" in call_name(c) for c in ast.walk(t)) for t, _ in gs):
+                    continue
+                n += 1
+                ok = any((not pol) and isinstance(t, ast.Call) and "empty" in call_name(t) for t, pol in gs)
+                res.add(rule, f"find_scope_end|indent-exit#{n}", ok, f"{f.unit.rel}:{nd.lineno}",
+                        "the scan stops on indentation only at a line that is neither blank nor a comment" if ok else
+                        "find_scope_end ends the scope at a less-indented line without testing that the line is not a comment/blank line: commented-out "
+                        "code in column 0 inside a function body truncates the function's scope, so names used after it are looked up in the wrong scope "
+                        "and extract analyses only part of the host function", function=f.qualname)
+    res.floor(rule, "indentation exits of the scope-end scan", n, 1)
